@@ -175,7 +175,10 @@ struct FlatSetEngine : EngineBase {
         std::string hc = static_cast<long>(h) == lb ? "hint=lb" : static_cast<long>(h) < lb ? "hint<lb" : "hint>lb";
         set_op(form == 2 ? "insert(hint,const&)" : form == 3 ? "insert(hint,&&)" : "emplace_hint", st(a), ac + "," + hc, fmt("S%d hint=%zu %d.%u", a, h, x.key, x.pay));
         size_t before = m.size();
-        if (form == 5) {
+        if (form == 5 && rng.chance(1, 3)) {
+          Proto pr; pr.key = x.key; pr.pay = x.pay; pr.half = 1;
+          window([&] { got = idx(s, s.emplace_hint(s.begin() + h, pr)); });
+        } else if (form == 5) {
           window([&] { got = idx(s, Emp<VecT>::hint(s, s.begin() + h, x)); });
         } else {
           E *e = make_hold(x);
@@ -188,6 +191,13 @@ struct FlatSetEngine : EngineBase {
         break;
       }
       case 4: {
+        if (rng.chance(1, 3)) {
+          // a single argument of another type that converts to the element
+          set_op("emplace(value of another type)", st(a), ac, fmt("S%d %d.%u", a, x.key, x.pay));
+          Proto pr; pr.key = x.key; pr.pay = x.pay; pr.half = 1;
+          window([&] { auto r = s.emplace(pr); got = idx(s, r.first); ins = r.second; });
+          break;
+        }
         set_op("emplace", st(a), ac, fmt("S%d %d.%u", a, x.key, x.pay));
         window([&] { auto r = Emp<VecT>::set(s, x); got = idx(s, r.first); ins = r.second; });
         break;
